@@ -374,8 +374,8 @@ class StyleProperties:
     def extract(cls, context: StyleParsingContext, xml_attrib: str):
       lp = StyleProperties.ttml_length_to_model(context, xml_attrib)
 
-      if lp.units != styles.LengthType.Units.c:
-        raise ValueError("ebutts:linePadding must be expressed in 'c'")
+      if not styles.StyleProperties.LinePadding.validate(lp):
+        raise ValueError("ebutts:linePadding must be expressed in 'c' (or in root container relative units)")
 
       return lp
 
